@@ -11,7 +11,7 @@ from pbsym.runner import Unit
 from .common import iterm
 
 META = {
-    "stubs": ["functools.lru_cache bypassed (next_fast_len.__wrapped__ / prev_fast_len.__wrapped__ are the real bodies; "
+    "stubs": ["CrossHair 0.0.110 as a second engine on the same functions for N <= 150 (quick) / 1000 (thorough), specification by trial division", "functools.lru_cache bypassed (next_fast_len.__wrapped__ / prev_fast_len.__wrapped__ are the real bodies; "
               "a symbolic int is not hashable)"],
     "bounds": {"exhaustive range": "0 <= N < 2^17 quick, < 2^20 thorough (split into sub-ranges, each explored over all paths)",
                "windows": "symbolic N in [q-W, q+W] around pure prime powers q = 2^a, 3^a, 5^a, 7^a up to 2^62 (quick: every 4th, W=2^8; "
@@ -122,8 +122,70 @@ class FastLen(Unit):
         return f"{self.which}_fast_len:{label}"
 
 
+class CrossHairFastLen(Unit):
+    """second, independent symbolic executor (CrossHair) on the same two functions, against a specification that does not use the
+    7-smooth table (trial division).  Only a counterexample (replayed) or 'Confirmed over all paths' counts."""
+    functions = ("pulsarbat.utils:next_fast_len", "pulsarbat.utils:prev_fast_len")
+    witnesses = 0
+    budget_s = 3000
+    keep_budget = True
+
+    def __init__(self, maxn, timeout):
+        self.maxn, self.timeout = maxn, timeout
+        self.name = f"crosshair-n{maxn}"
+        self.bounds = {"0<=N<=": maxn, "per_condition_timeout_s": timeout}
+
+    def patches(self):
+        return []
+
+    def path(self, ctx, state):
+        import os
+        import re
+        import subprocess
+        import sys
+        here = os.path.dirname(os.path.abspath(__file__))
+        env = dict(os.environ, PBSYM_FASTLEN_MAXN=str(self.maxn), PYTHONPATH="/repo:" + os.environ.get("PYTHONPATH", ""))
+        cmd = [sys.executable, "-m", "crosshair", "check", "--report_all", "--per_condition_timeout", str(self.timeout),
+               os.path.join(here, "crosshair_fastlen.py")]
+        r = subprocess.run(cmd, capture_output=True, text=True, env=env, timeout=self.timeout * 3 + 120)
+        txt = r.stdout + r.stderr
+        ctx.reached = True
+        ctx.stats["queries"] += 1
+        verdicts = [l.strip() for l in txt.splitlines() if "crosshair_fastlen.py" in l]
+        state.setdefault("extra", {})["crosshair_verdicts"] = verdicts[:6]
+        from .crosshair_fastlen import next_ok, prev_ok
+        for line in verdicts:
+            m = re.search(r"when calling (next_ok|prev_ok)\((?:n ?= ?)?(-?\d+)\)", line)
+            if m:
+                fn, n = m.group(1), int(m.group(2))
+                ok = (next_ok if fn == "next_ok" else prev_ok)(n)
+                if not ok:
+                    which = "next" if fn == "next_ok" else "prev"
+                    state["violations"].append({"unit": self.name, "label": "nearest", "values": {"N": n},
+                                                "detail": f"{which}_fast_len({n}) is not the nearest 7-smooth number (CrossHair counterexample, replayed)",
+                                                "signature": f"{which}_fast_len:nearest", "decisions": []})
+                    ctx.checks.append(("crosshair", "sat", 0.0, None))
+                    return None
+                state["unconfirmed"].append({"unit": self.name, "label": "nearest", "values": {"N": n},
+                                             "detail": "CrossHair counterexample did not reproduce", "tries": 1})
+        confirmed = sum(1 for l in verdicts if "Confirmed over all paths" in l)
+        ctx.checks.append(("crosshair", "unsat" if confirmed == 2 else "unknown", 0.0, None))
+        if confirmed != 2:
+            state["unknown"].append("crosshair: " + "; ".join(verdicts)[:300])
+        return None
+
+    def replay(self, label, values):
+        from .crosshair_fastlen import next_ok, prev_ok
+        n = int(values["N"])
+        bad = [w for w, f in (("next", next_ok), ("prev", prev_ok)) if not f(n)]
+        return ("reproduced", f"{bad} wrong at N={n}") if bad else ("not_reproduced", "correct")
+
+    def signature(self, label, values, detail):
+        return "fast_len:nearest"
+
+
 def units(tier):
-    us = []
+    us = [CrossHairFastLen(150, 240) if tier == "quick" else CrossHairFastLen(1000, 1500)]
     if tier == "quick":
         edges = [0, 64, 256, 512, 1024, 2048, 4096, 8192] + [2**14 * k for k in range(1, 9)]
     else:
